@@ -12,8 +12,8 @@ a plain identifier is compiled by `emitCallNode` (internal/compiler/emitter.go):
     register, else as a closure variable, else in the package table.
 
 What is modelled: the chain of blocks around the use with their local declarations and the function
-boundaries, the lexical resolution (`resolve`: what the type checker does), `em.fb.declaredInFunc`
-and the emitter's choice (`emitCallee`) with the guard as a parameter (instantiated in Props/C16
+boundaries, the lexical resolution (`resolve`: what the type checker does), `em.fb.declaredInFunc`,
+`em.varStore.isClosureVar` and the emitter's choice (`emitCallee`) with the guard as a parameter (instantiated in Props/C16
 with the regenerated one). -/
 namespace ScriggoV.Compose.Local
 
@@ -67,15 +67,23 @@ def declaredInFunc : Chain → Nat → Bool
   | [], _ => false
   | f :: rest, n => (find f.decls n).isSome || (!f.func && declaredInFunc rest n)
 
-/-- `emitCallNode` on `n(...)`. `guard local` is the condition of the direct-call branch as a function
-of "the name is local to the current function"; `closureAware` chooses what "local" means: today
-`declaredInFunc` alone (`false`), or also the closure variables of the function (`true`, the repair
-proposed in fixes/C16-local-shadow-of-imported-macro-in-closure.NOT-APPLIED.md). The indirect path
-evaluates the identifier as `emitExpr` does: locals and closure variables first — `resolve`. -/
-def emitCallee (guard : Bool → Bool) (closureAware : Bool) (c : Chain) (t : Table) (n : Nat) :
-    Option Target :=
-  let isLocal := declaredInFunc c n || (closureAware && (resolveLocal c n).isSome)
-  if guard isLocal then
+/-- `em.varStore.isClosureVar(em.fb.fn, name)` at a use of `name` in the current function: the type
+checker records as upvars of a function literal / macro the names used in it that resolve to a local of
+an *enclosing* function, and `setFunctionVarRefs` enters them in `closureVars[fn]` — so at this use the
+name is a closure variable iff it is a local of the lexical scope that is not declared in the current
+function. (`packageVarRef`, commit ccfaf1d, also enters package *variables* read in a closure; a name
+cannot be a variable and a function of the package table at once — a redeclaration — so those entries
+never meet `find t n = some _`.) -/
+def isClosureVar (c : Chain) (n : Nat) : Bool :=
+  !declaredInFunc c n && (resolveLocal c n).isSome
+
+/-- `emitCallNode` on `n(...)`. `guard d cv` is the condition of the direct-call branch as a function
+of `d` = "declared in the current function" (`em.fb.declaredInFunc`) and `cv` = "closure variable of the
+current function" (`em.varStore.isClosureVar`); instantiated in Props/C16 with the regenerated one. The
+indirect path evaluates the identifier as `emitExpr` does: locals and closure variables first —
+`resolve`. -/
+def emitCallee (guard : Bool → Bool → Bool) (c : Chain) (t : Table) (n : Nat) : Option Target :=
+  if guard (declaredInFunc c n) (isClosureVar c n) then
     match find t n with
     | some d => some (.pkg d)
     | none => resolve c t n
